@@ -2,7 +2,7 @@
 import wlcheck
 
 PID = 'C14'
-TAGS = set('inv,layout,step'.split(','))
+TAGS = set('inv,layout,step,inputs,picklevel,droploop'.split(','))
 THEOREMS = [
     'Lcdb.C14.step_preserves_inv',
     'Lcdb.C14.steps_preserve_inv',
